@@ -21,7 +21,7 @@ func init() {
 			"SetBytes(Arguments[k]) (non-negative by construction), its negation, or the current holding of the credited entry. R3: entry points whose supply column is 0 (and the toggles) contain no Value mutation and no store to ESDigitalToken.Value of a read entry. " +
 			"R4: the delete performed by ESDTWipe is cut by Frozen == true of the entry read from the same account and key. Does NOT decide: that the stored number equals old ± amount (arithmetic of math/big).",
 		Trusted: []string{"math/big Add/Sub/Neg/Cmp semantics", "T-REG supply column restating the property"},
-		Rules:   []func(*Ctx){c02r1, c02r2, c02r4, c02r5, c02r6, c02r7},
+		Rules:   []func(*Ctx){c02r1, c02r2, c02r4, c02r5, c02r6, c02r7, c02r8},
 	})
 }
 
@@ -434,4 +434,10 @@ func c02r6(c *Ctx) {
 }
 func c02r7(c *Ctx) {
 	c.shareRule(c05r3, "C05-R3", "C02-R7", "balance keys are prefix‖token‖Bytes(nonce): distinct (token, nonce) never share an entry", nil)
+}
+
+// c02r8: the one function that writes what the user lists cannot reach a balance entry (shared with C03-R6): a forged
+// ELRONDesdt… value is a supply change by an amount nobody stated.
+func c02r8(c *Ctx) {
+	c.shareRule(c03r6, "C03-R6", "C02-R8", "SaveKeyValue cannot write a balance entry: its write is cut by the protected-prefix test on the very key written", nil)
 }
